@@ -45,11 +45,22 @@ devices with std's `read_exact` / `write_all` (Gen/RustShimIO.lean), `to_le_byte
 HASH ORDER: `Vec::from_iter(set)`, `set.into_iter()`, `map.into_iter()` yield values in hash order. They are typed
 `uvec`/`uiter`: only `len`, `is_empty`, `sort` (which makes the vector an ordinary one), `map`, and `collect` back into a
 hash container are accepted; indexing or iterating them is rejected.
-NOT TRANSLATED (constructs): `Bdd::{write_as_string, read_as_string, from_string}`, `Display` (the `write!` macro, `String`
-building, `str::{split, parse, retain}`, `char::is_whitespace`, `read_to_string`); `BddVariableSet::new` and
-`BddVariableSetBuilder` (`chars()`, `const` generics); the boolean-expression tokenizer/parser/evaluator (`enum`s with
-payloads, `Box`, `Peekable<Chars>`, `char` patterns); `sat_valuations`/`BddSatisfyingValuations` (struct holding iterators
-by value with lifetimes), `cardinality` (f64), `.dot` export (`write!`), `to_boolean_expression` (enum construction).
+THIRD BATCH (Gen/Algo3.lean) additionally uses: `enum`s with unit / tuple variants as generated `inductive`s (`Box`
+erased, nested `Vec<Self>` = `Array`, `derive(PartialEq)` = `deriving BEq`), constructor calls / paths / patterns
+(qualified, or bare through `use Enum::*` / `use Enum::Variant`), `..` in tuple-variant patterns, `matches!`; crate-level
+`const`s (parameterless defs); `char` (`Char` literals and patterns, `is_whitespace`), `String`/`&str` = Lean `String`
+(`chars`, `split(char)`, `parse::<u16|u32>`, `retain`, `push`, `push_str`, `as_bytes`, `is_empty`, `collect` of chars,
+`String::from_utf8`), `Chars`/`Peekable<Chars>` = the list of remaining characters (`next`, `peek`, `while let Some(c) =
+it.next()`); a leading `name if cond` match arm; slices `v[..a]`, `v[a..]`, `v[a..b]`; MUTUAL RECURSION (a `mutual` block,
+every member structurally recursive on `fuel`); `write!`/`writeln!` into a `fmt::Formatter` (= the `String` written so
+far) or a `dyn Write` (one `write_all` per literal piece and per argument, as std's `write_fmt`), `Display` impls of crate
+types, `to_string()` / `format!("{}", x)` through them (`Display` of `BddVariable`/`BddPointer` is checked to be the plain
+decimal printer); `read_to_string` (the read sizes chosen by std are an environment parameter of the reader); type
+parameters with a `ToString` bound (`[ToString E]`), `map_err`, `Option::map` / `unwrap_or_else` whose closure can panic.
+Generated names never shadow Lean core names (`and`, `or`, `xor`, … get the file stem as a prefix: `parser__and`).
+NOT TRANSLATED (constructs): `BddVariableSetBuilder::make` (const generics), `cardinality` (f64), the owned iterator twins
+(`OwnedBddPathIterator`, `OwnedBddSatisfyingValuations`: textual duplicates of the borrowed ones), `bdd!` (macro_rules),
+`BooleanExpression::support_set` (or-patterns that bind), serde impls.
 SEMANTIC CONVENTIONS: integers are `Nat`; `a - b` panics on underflow; `as u16`/`as u32` truncate; `+`, `*`, `<<` are
 not range-checked; `debug_assert!` is a comment unless --debug-assertions (the harness is a release build);
 `format!` keeps only its template (messages are never compared); hash-map capacity / hasher are dropped.
@@ -173,6 +184,41 @@ attribute [local instance 10000] Rust.monadOutcomeInline
 '''
 
 
+PA = 'src/boolean_expression/_impl_parser.rs'
+VB = 'src/_impl_bdd_variable_set_builder.rs'
+DO = 'src/_impl_bdd/_impl_export_dot.rs'
+SV = 'src/_impl_bdd_satisfying_valuations.rs'
+BE = 'src/boolean_expression/_impl_boolean_expression.rs'
+# third batch (Gen/Algo3.lean): strings, characters, enums
+TARGETS3 = [
+    (PA, None, 'tokenize_group'), (PA, None, 'index_of_first'), (PA, None, 'parse_formula'), (PA, None, 'parse_boolean_expression'),
+    (BE, 'BooleanExpression', 'fmt'), (BE, 'BooleanExpression', 'try_from'),
+    (BE, 'BddVariableSet', 'safe_eval_expression'), (BE, 'BddVariableSet', 'eval_expression'), (BE, 'BddVariableSet', 'eval_expression_string'),
+    (UT, 'Bdd', 'to_boolean_expression'),
+    (VS, 'BddVariableSet', 'new'), (VS, 'BddVariableSet', 'variables'), (VS, 'BddVariableSet', 'variable_names'), (VS, 'BddVariableSet', 'num_vars'),
+    (VB, 'BddVariableSetBuilder', 'new'), (VB, 'BddVariableSetBuilder', 'make_variable'), (VB, 'BddVariableSetBuilder', 'make_variables'),
+    (VB, 'BddVariableSetBuilder', 'build'),
+    (DO, None, 'write_bdd_as_dot'), (DO, None, 'bdd_to_dot_string'), (DO, 'Bdd', 'write_as_dot_string'), (DO, 'Bdd', 'to_dot_string'),
+    (SV, 'Bdd', 'sat_valuations'), (SV, 'BddSatisfyingValuations', 'next'), (SV, 'Bdd', 'sat_clauses'),
+    (SE, None, 'lift_err'), (SE, 'Bdd', 'write_as_string'), (SE, 'Bdd', 'read_as_string'), (SE, 'Bdd', 'from_string'), (SE, 'Bdd', 'fmt'),
+]
+
+HEADER3 = '''import BddVerif.Gen.Algo2
+import BddVerif.Gen.RustShimStr
+/-!
+GENERATED by tools/rust2lean.py from the Rust sources of the library — DO NOT EDIT; regenerated on every run.
+Third batch of translated functions (same conventions as Gen/Algo.lean / Gen/Algo2.lean, whose definitions it reuses):
+code over characters, strings and `enum`s. `String`/`&str` = `String`, `char` = `Char`, `Chars`/`Peekable<Chars>` = the
+list of remaining characters, a Rust `enum` = a generated `inductive` (`Box` erased), `fmt::Formatter` = the `String`
+written so far, mutually recursive functions = a `mutual` block with structural recursion on `fuel`.
+-/
+set_option linter.unusedVariables false
+set_option linter.constructorNameAsVariable false
+namespace B.Gen.Algo3
+open B B.Gen B.Gen.Algo B.Gen.Algo2
+attribute [local instance 10000] Rust.monadOutcomeInline
+'''
+
 HEADER2 = '''import BddVerif.Gen.Algo
 import BddVerif.Gen.RustShimIO
 import BddVerif.Gen.OpTables
@@ -218,11 +264,11 @@ def _render(header, ns, stats, output):
 _CACHE = {}
 
 
-def generate_all(repo, only=None, debug_assertions=False, second=True, tolerant=False):
+def generate_all(repo, only=None, debug_assertions=False, second=True, tolerant=False, third=False):
     """returns {'Algo.lean': (text, stats), 'Algo2.lean': (text, stats)}; raises R2LError.
     Algo.lean holds TARGETS and their callees, Algo2.lean (which imports it) whatever TARGETS2 needs in addition."""
     tolerant = tolerant or bool(os.environ.get('R2L_TOLERANT'))
-    key = (os.path.abspath(repo), tuple(sorted(only)) if only else None, debug_assertions, second, tolerant)
+    key = (os.path.abspath(repo), tuple(sorted(only)) if only else None, debug_assertions, second, tolerant, third)
     if key in _CACHE:
         return _CACHE[key]
     tr = Translator(repo, debug_assertions=debug_assertions)
@@ -249,7 +295,24 @@ def generate_all(repo, only=None, debug_assertions=False, second=True, tolerant=
                         tr.inprog.clear()
                 else:
                     tr.translate(item)
-        res['Algo2.lean'] = (_render(HEADER2, 'B.Gen.Algo2', tr.stats[n1:], tr.output[n1:]), tr.stats[n1:])
+        n2 = len(tr.output)
+        res['Algo2.lean'] = (_render(HEADER2, 'B.Gen.Algo2', tr.stats[n1:n2], tr.output[n1:n2]), tr.stats[n1:n2])
+        if third:
+            tr.phase = 3
+            for file, owner, name in TARGETS3:
+                if only and name not in only:
+                    continue
+                item = find_target(tr, file, owner, name)
+                if item not in tr.sigs:
+                    if tolerant:
+                        try:
+                            tr.translate(item)
+                        except R2LError as e:
+                            sys.stderr.write('  [skip] %s\n' % e)
+                            tr.inprog.clear(); tr.stack[:] = []; tr.group_of.clear(); tr.pending.clear()
+                    else:
+                        tr.translate(item)
+            res['Algo3.lean'] = (_render(HEADER3, 'B.Gen.Algo3', tr.stats[n2:], tr.output[n2:]), tr.stats[n2:])
     _CACHE[key] = res
     return res
 
@@ -262,6 +325,11 @@ def generate(repo, only=None, debug_assertions=False):
 def generate2(repo, only=None, debug_assertions=False):
     """Gen/Algo2.lean: returns (lean text, stats); raises R2LError"""
     return generate_all(repo, only, debug_assertions, second=True)['Algo2.lean']
+
+
+def generate3(repo, only=None, debug_assertions=False):
+    """Gen/Algo3.lean: returns (lean text, stats); raises R2LError"""
+    return generate_all(repo, only, debug_assertions, second=True, third=True)['Algo3.lean']
 
 
 def main(argv):
@@ -307,6 +375,18 @@ def main(argv):
         if old2 != text2:
             with open(out2, 'w') as f:
                 f.write(text2)
+        out3 = out[:-5] + '3.lean'
+        try:
+            text3, stats3 = generate3(repo, only, dbg)
+            stats = stats + stats3
+        except R2LError as e:
+            sys.stderr.write('rust2lean: UNTRANSLATABLE (Algo3): %s\n' % e)
+            text3 = 'namespace B.Gen.Algo3\nend B.Gen.Algo3\n-- BROKEN TIE: %s\n' % str(e).replace('\n', ' ')
+            status = 3
+        old3 = open(out3).read() if os.path.exists(out3) else None
+        if old3 != text3:
+            with open(out3, 'w') as f:
+                f.write(text3)
     if report:
         json.dump({'file': out, 'sha256': hashlib.sha256(text.encode()).hexdigest()[:16], 'lines': text.count('\n'),
                    'functions': [{'rust': q, 'lean': l, 'kind': k, 'lines': n, 'src': '%s:%d' % (f, ln)} for q, l, k, n, f, ln in stats]},
